@@ -5,21 +5,27 @@ import (
 	"fmt"
 	"github.com/aml-org/amf-custom-validator/internal/misc"
 	"github.com/aml-org/amf-custom-validator/internal/parser/profile"
+	"strings"
 )
 
 func GeneratePattern(pattern profile.PatternRule, iriExpander *misc.IriExpander) []SimpleRegoResult {
 	path := pattern.Path
 	var rego []string
-	rego = append(rego, "#  querying path: "+path.Source())
+	rego = append(rego, queryingPathComment(path))
 	pathResult := GeneratePropertySet(path, pattern.Variable.Name, iriExpander)
 	checkVariable := profile.Genvar(fmt.Sprintf("%s_node", pathResult.rule))
 	rego = append(rego, fmt.Sprintf("%s_array = %s with data.sourceNode as %s", checkVariable, pathResult.rule, pattern.Variable.Name))
 	rego = append(rego, fmt.Sprintf("%s = %s_array[_]", checkVariable, checkVariable))
 	// Add the validation
+	// a raw string cannot contain a backtick: such a pattern is written as an escaped string instead
+	patternLiteral := "`" + pattern.Argument + "`"
+	if strings.Contains(pattern.Argument, "`") {
+		patternLiteral = regoString(pattern.Argument)
+	}
 	if pattern.Negated {
-		rego = append(rego, fmt.Sprintf("regex.match(`%s`,%s)", pattern.Argument, checkVariable))
+		rego = append(rego, fmt.Sprintf("regex.match(%s,%s)", patternLiteral, checkVariable))
 	} else {
-		rego = append(rego, fmt.Sprintf("not regex.match(`%s`,%s)", pattern.Argument, checkVariable))
+		rego = append(rego, fmt.Sprintf("not regex.match(%s,%s)", patternLiteral, checkVariable))
 	}
 
 	tracePath, err := pattern.Path.Trace(iriExpander)
